@@ -219,28 +219,53 @@ def check_log(rec, log, state, where, **detail):
         rec.count('version:several-banners')
 
 
-def check_flatten(ctx, log, runs, style, lo=None, hi=None, where='flatten', **detail):
+def call_flatten(log, style, lo, hi, call='positional'):
+    """The three ways a caller spells the same request."""
+    if call == 'keyword':
+        return log.flatten(style=style, firstindex=lo, lastindex=hi)
+    if call == 'minimal':                              # defaults left out (style 'last', index None)
+        kw = {}
+        if lo is not None:
+            kw['firstindex'] = lo
+        if hi is not None:
+            kw['lastindex'] = hi
+        return log.flatten(**kw) if style == 'last' else log.flatten(style, **kw)
+    return log.flatten(style, lo, hi)
+
+
+def check_flatten(ctx, log, runs, style, lo=None, hi=None, where='flatten', call='positional', **detail):
+    """flatten(style, lo, hi) of the real object against the model runs read so far; returns the table handed out
+    (None when there was nothing to judge).  ``where`` names the situation of the call ('flatten' = first flatten calls
+    on an object, 'flatten:interleaved' = earlier flatten calls and further reads lie in between); the input classes
+    of the recorded D12 findings keep their plain key in every situation."""
     rec = ctx.rec
     sub = runs[lo:hi]
     if not sub:
-        return
+        rec.count('flatten:empty-range-skipped')
+        return None
     steps = M.step_lists(sub)
     if steps is None:
         # documented refusal: 'All simulation thermos must have Step key in order to flatten'
         with ctx.guard('flatten without a Step column', f'{where}:{style}:no-step', accept=(AssertionError, AttributeError, KeyError)):
-            log.flatten(style, lo, hi)
+            call_flatten(log, style, lo, hi, call)
         rec.count('flatten:no-step')
-        return
+        return None
     if style == 'all':
         label, status = ('all', 'must-hold')
     else:
         label, status = M.flatten_class(steps, style)
     rec.count(f'flatten:{style}:class:{label}')
+    if status == 'd12':
+        where = 'flatten'
+    if where != 'flatten':
+        rec.count(where)
+        rec.count(f'{where}:{style}')
+    rec.count('flatten:call:' + call)
     res = None
     with ctx.guard(f'flatten({style}) returns the merged table', f'{where}:{style}:exception' + ('' if status == 'must-hold' else ':' + label)):
-        res = log.flatten(style, lo, hi).thermo
+        res = call_flatten(log, style, lo, hi, call).thermo
     if res is None:
-        return
+        return None
     rec.count(f'flatten:{style}')
     ucols = M.union_columns(sub)
     cols = [str(c) for c in res.columns]
@@ -252,13 +277,13 @@ def check_flatten(ctx, log, runs, style, lo=None, hi=None, where='flatten', **de
     rec.check(set(need) <= set(cols) <= set(ucols), 'merged table has the union of the printed columns', f'{where}:{style}:columns',
               got=cols, expected=ucols, required=need, **detail)
     if 'Step' not in cols:
-        return
+        return res
     try:
         got_steps = [int(x) for x in res['Step'].tolist()]
     except Exception as e:
         rec.fail('merged Step column holds the printed integers', f'{where}:{style}:steps' + ('' if status != 'empty' else ':' + label),
                  exception=e, **detail)
-        return
+        return res
     exp_pairs = M.flatten_expected(sub, style)
     exp_steps = [sub[k]['rows'][r][sub[k]['columns'].index('Step')] for k, r in exp_pairs]
     values = {c: res[c].tolist() for c in cols}
@@ -291,7 +316,7 @@ def check_flatten(ctx, log, runs, style, lo=None, hi=None, where='flatten', **de
         if ok:
             bad = [b for b in (row_ok(i, k, r) for i, (k, r) in enumerate(exp_pairs)) if b]
             rec.check(not bad, "flatten('all') rows carry the printed values", f'{where}:all:rows', first=bad[:2], **detail)
-        return
+        return res
     rec.check(len(set(got_steps)) == len(got_steps), f"flatten('{style}') has every Step at most once", f'{where}:{style}:unique',
               got=got_steps[:20], **detail)
     owner = {s: kr for s, kr in zip(exp_steps, exp_pairs)}
@@ -321,6 +346,7 @@ def check_flatten(ctx, log, runs, style, lo=None, hi=None, where='flatten', **de
     if status == 'must-hold' and all(list(s_) == sorted(s_) for s_ in steps):
         rec.check(got_steps == sorted(got_steps), f"flatten('{style}') lists the steps in increasing order (monotone runs)",
                   f'{where}:{style}:order', got=got_steps[:20], **detail)
+    return res
 
 
 # ---------------------------------------------------------------------------------------------
